@@ -5,7 +5,9 @@ Correspondence: periodogram_csd / multi_taper_csd (fixed and adaptive weights) /
 model (`Nitime.C04` estimators, `Nitime.C06.completeUpper`), full matrices.
 Oracle (independent of the Lean model, numpy only): Hermitian symmetry, eigvalsh >= -1e-10*norm,
 diagonal real and equal to what the single-channel function returns with the same settings,
-metamorphic pairs of runs: drop / add / permute channels, flatten an extra leading dimension.
+metamorphic pairs of runs: drop / add / permute channels, flatten an extra leading dimension, other memory
+layouts (Fortran, transposed view, strided, negative strides), the same ndarray refilled in place (identity-keyed
+caches), the wrappers get_spectra / CoherenceAnalyzer.spectrum vs the direct call.
 """
 import numpy as np
 import common
@@ -56,7 +58,7 @@ def single_channel(m, row):
     if m['op'] == 'mtcsd':
         return np.asarray(A.multi_taper_psd(row, Fs=m['Fs'], NW=m.get('NW'), BW=m.get('BW'), adaptive=m['adaptive'], jackknife=False,
                                             low_bias=m.get('low_bias', True), sides=m['sides'], NFFT=m.get('NFFT'))[1])
-    r = run_impl(put_data(dict(m), row))
+    r = run_impl(put_data(dict(m, via=None), row))
     return np.real(np.asarray(r['W']))
 
 
@@ -120,6 +122,7 @@ def judge(m, r=None):
         C5 = matrix_of(m, run_impl(put_data(dict(m), rows)))
         if not rel_close(C5, C, lo):
             bad.append(('flatten', 'result for the (a,b,n) array differs from the one for its (a*b,n) flattening'))
+    bad += c04.robustness(m, r)
     return bad
 
 
@@ -167,6 +170,7 @@ def gen_meta(rng, nr, tier, kind, i=0):
                 m['BW'], m['NW'] = rng.choice([4, 5, 6, 8]) * Fs / n, None
             else:
                 m['NW'], m['BW'] = rng.choice([2, 2.5, 3, 4, None]), None
+        m['via'] = [None, 'get_spectra', None, 'CoherenceAnalyzer'][(i // 4) % 4]
         return put_data(m, c04.gen_signal(rng, nr, shape, cplx, i=i // 7, coherent=coherent))
     Ns = [8, 9, 12, 15, 16, 21] + ([32, 33] if big else [])
     N = Ns[i % len(Ns)]
@@ -176,6 +180,9 @@ def gen_meta(rng, nr, tier, kind, i=0):
     m = {'op': 'welch', 'Fs': c04.gen_fs(rng), 'NFFT': N, 'sides': 'default',
          'n_overlap': [None, 0, 1, N // 2, N - 1, rng.randint(0, N - 1)][(i // 5) % 6],
          'window': rng.choice([None, None, [float(v) for v in np.ones(N)], [float(v) for v in np.hamming(N)]])}
+    m['via'] = [None, None, 'CoherenceAnalyzer'][(i // 4) % 3]
+    if m['via'] == 'CoherenceAnalyzer' and m['n_overlap'] is None:
+        m['n_overlap'] = N // 2         # the analyzer's own default overlap (32) ignores NFFT
     return put_data(m, c04.gen_signal(rng, nr, (M, n), cplx, i=i // 7))
 
 
